@@ -105,49 +105,89 @@ func touchedAfterSpawn(fn *ssa.Function, fvName string) bool {
 // raceObligations enumerates the stores made inside concurrent regions of the
 // query and discharges those that are synchronised.
 func raceObligations(p *load.Prog, r *oblig.Run, rule string, a *e4.Analysis, table map[string]string, rootName string) int {
-	n := 0
-	var ws []*e4.Write
-	for _, w := range a.SortedWrites() {
-		if w.InGo {
-			ws = append(ws, w)
-		}
+	// One obligation per written field (or variable) and root: all stores to it from concurrent regions must be
+	// synchronised. Keys name the field, not the function that happens to contain the store - moving the store
+	// (extracting a helper, replacing a deferred closure by straight-line code) must not change the verdict.
+	type group struct {
+		field string
+		ws    []*e4.Write
 	}
-	for _, w := range ws {
+	groups := map[string]*group{}
+	var order []string
+	for _, w := range a.SortedWrites() {
+		if !w.InGo {
+			continue
+		}
+		g := groups[w.Field]
+		if g == nil {
+			g = &group{field: w.Field}
+			groups[w.Field] = g
+			order = append(order, w.Field)
+		}
+		g.ws = append(g.ws, w)
+	}
+	n := 0
+	for _, f := range order {
+		g := groups[f]
 		n++
-		key := fmt.Sprintf("store %s in %s (reached from %s)", w.Field, load.FuncName(w.Fn), rootName)
-		o := r.Add(rule, key, p.Pos(w.Instr.Pos()), "store executed inside a concurrent region: "+w.Field)
-		var ts []string
-		for _, ob := range w.Target.List() {
-			if ob.Kind != "U" || w.Class != "captured" {
-				ts = append(ts, a.Describe(ob))
+		key := fmt.Sprintf("stores to %s (reached from %s)", g.field, rootName)
+		o := r.Add(rule, key, p.Pos(g.ws[0].Instr.Pos()), "stores executed inside a concurrent region: "+g.field)
+		var okWhy []string
+		var bad []string
+		var wit []string
+		for _, w := range g.ws {
+			site := fmt.Sprintf("store %s in %s (reached from %s)", w.Field, load.FuncName(w.Fn), rootName)
+			var ts []string
+			for _, ob := range w.Target.List() {
+				if ob.Kind != "U" || w.Class != "captured" {
+					ts = append(ts, a.Describe(ob))
+				}
+			}
+			sort.Strings(ts)
+			switch {
+			case strings.Contains(w.Field, "(sync.Map)"):
+				okWhy = append(okWhy, "through sync.Map")
+			case w.Locked:
+				okWhy = append(okWhy, "between Lock and Unlock of a mutex in "+load.FuncName(w.Fn))
+			case w.Class == "captured" && !w.Multi && !touchedAfterSpawn(w.Fn, w.Var):
+				okWhy = append(okWhy, "captured by a single goroutine body and not touched by its creator after the go statement")
+			default:
+				if why, ok := table[site]; ok {
+					okWhy = append(okWhy, "table ("+load.FuncName(w.Fn)+"): "+why)
+					continue
+				}
+				kind := "a goroutine"
+				if w.Multi {
+					kind = "a worker-pool body that runs in several goroutines at once"
+				}
+				what := "shared state (" + strings.Join(ts, "; ") + ")"
+				if w.Class == "captured" {
+					what = "a variable of the enclosing function"
+				}
+				bad = append(bad, fmt.Sprintf("in %s at %s from %s: %s", load.FuncName(w.Fn), p.Pos(w.Instr.Pos()), kind, what))
+				if len(wit) == 0 {
+					wit = append([]string{"call chain into the concurrent region:"}, w.Stack...)
+				}
 			}
 		}
-		sort.Strings(ts)
-		switch {
-		case strings.Contains(w.Field, "(sync.Map)"):
-			o.OK("through sync.Map, which is safe for concurrent use")
-		case w.Locked:
-			o.OK("between Lock and Unlock of a mutex in " + load.FuncName(w.Fn))
-		case w.Class == "captured" && !w.Multi && !touchedAfterSpawn(w.Fn, w.Var):
-			o.OK("variable captured by a single goroutine body; the function that starts it does not touch the variable after the go statement")
-		default:
-			if why, ok := table[o.Key]; ok {
-				o.OK("table: " + why)
-				continue
-			}
-			kind := "a goroutine"
-			if w.Multi {
-				kind = "a worker-pool body that runs in several goroutines at once"
-			}
-			what := "shared state (" + strings.Join(ts, "; ") + ")"
-			if w.Class == "captured" {
-				what = "a variable of the enclosing function"
-			}
-			o.Fail(fmt.Sprintf("unsynchronised store to %s from %s: %s is written without a lock, sync.Map, atomic or channel - a data race as soon as more than one job runs", w.Field, kind, what),
-				append([]string{"call chain into the concurrent region:"}, w.Stack...)...)
+		if len(bad) == 0 {
+			sort.Strings(okWhy)
+			o.OK(fmt.Sprintf("%d store site(s), all synchronised: %s", len(g.ws), strings.Join(dedupe(okWhy), "; ")))
+			continue
 		}
+		o.Fail(fmt.Sprintf("unsynchronised store to %s - written without a lock, sync.Map, atomic or channel: a data race as soon as more than one job runs (%s)", g.field, strings.Join(bad, " | ")), wit...)
 	}
 	return n
+}
+
+func dedupe(s []string) []string {
+	var out []string
+	for i, v := range s {
+		if i == 0 || v != s[i-1] {
+			out = append(out, v)
+		}
+	}
+	return out
 }
 
 // C11: matching individuals (race clause + structure).
